@@ -346,6 +346,42 @@ func init() {
 				}
 			}
 		}
+		// typed positions built by composition over ARRAY (and scalar) branches: the position holds an array of the stated
+		// element type whichever way it is spelled; wrong-typed values for the position and for an element
+		arrOf := func(t string) M { return M{"type": "array", "items": M{"type": t}} }
+		for ai, a := range []struct {
+			name string
+			pos  func() M
+			defs M
+			elem string
+		}{
+			{"anyOf-array-or-null", func() M { return M{"anyOf": []any{arrOf("string"), M{"type": "null"}}} }, nil, "string"},
+			{"allOf-single-ref-to-array", func() M { return M{"allOf": []any{M{"$ref": "#/$defs/Names"}}} }, M{"Names": arrOf("string")}, "string"},
+			{"allOf-array-plus-limit", func() M { return M{"allOf": []any{arrOf("integer"), M{"minItems": 1}}} }, nil, "integer"},
+			{"anyOf-two-arrays", func() M {
+				return M{"anyOf": []any{arrOf("integer"), M{"type": "array", "items": M{"type": "integer"}, "maxItems": 3}}}
+			}, nil, "integer"},
+			{"allOf-ref-plus-limit", func() M { return M{"allOf": []any{M{"$ref": "#/$defs/Names"}, M{"maxItems": 4}}} }, M{"Names": arrOf("boolean")}, "boolean"},
+			{"anyOf-ref-or-null", func() M { return M{"anyOf": []any{M{"$ref": "#/$defs/Names"}, M{"type": "null"}}} }, M{"Names": arrOf("number")}, "number"},
+		} {
+			for _, required := range []bool{false, true} {
+				schema := M{"type": "object", "properties": M{"v": a.pos(), "n": M{"type": "string"}}}
+				if a.defs != nil {
+					schema["$defs"] = sgen.DeepCopy(a.defs)
+				}
+				if required {
+					schema["required"] = []any{"v"}
+				}
+				good := subst[a.elem]
+				docs := []any{M{"v": []any{good}}, M{"v": []any{good, good}}, M{"v": 5}, M{"v": "s"}, M{"v": true}, M{"v": M{"k": 1}}, M{"v": 1.5}}
+				for _, jt := range []string{"string", "integer", "boolean", "object", "array"} {
+					if jt != a.elem && !(a.elem == "number" && jt == "integer") {
+						docs = append(docs, M{"v": []any{good, subst[jt]}})
+					}
+				}
+				composed = append(composed, baseCase("c03-composed", schema, docs, "array-branches", a.name, fmt.Sprintf("required=%v #%d", required, ai)))
+			}
+		}
 		// keywords that are PRESENT WITH AN EMPTY VALUE next to a typed additionalProperties (properties: {}, required: [],
 		// definitions: {}): an object without declared members is a typed map whatever else is spelled out emptily
 		for _, at := range []M{{"type": "object"}, {"type": "array", "items": M{"type": "string"}}, {"type": "integer"}, {"type": "string"}, {"type": "boolean"}, {"type": "number"}} {
@@ -510,6 +546,26 @@ func init() {
 				docs = append(docs, g.Sample(root, 0))
 			}
 			pcs = append(pcs, baseCase("c02-valid", root, docs, "constraint-free"))
+		}
+		// enums that LIST null among members of one other type, at positions held by value (required member, array item):
+		// null is then a valid value like any other member
+		for _, en := range []struct {
+			name string
+			node M
+			vals []any
+		}{
+			{"untyped-strings-and-null", M{"enum": []any{"auto", "manual", nil}}, []any{"auto", "manual"}},
+			{"typed-nullable-strings", M{"type": []any{"string", "null"}, "enum": []any{"on", "off", nil}}, []any{"on", "off"}},
+			{"untyped-numbers-and-null", M{"enum": []any{1.5, 2.5, nil}}, []any{1.5, 2.5}},
+			{"untyped-booleans-and-null", M{"enum": []any{true, nil}}, []any{true}},
+			{"null-first", M{"enum": []any{nil, "x", "y"}}, []any{"x", "y"}},
+		} {
+			schema := M{"type": "object", "required": []any{"mode"}, "properties": M{
+				"mode": sgen.DeepCopy(en.node), "opt": sgen.DeepCopy(en.node), "history": M{"type": "array", "items": sgen.DeepCopy(en.node)}}}
+			v0 := en.vals[0]
+			docs := []any{M{"mode": v0}, M{"mode": nil}, M{"mode": v0, "history": []any{v0, nil, en.vals[len(en.vals)-1]}}, M{"mode": nil, "history": []any{nil}},
+				M{"mode": v0, "opt": en.vals[len(en.vals)-1]}}
+			pcs = append(pcs, baseCase("c02-valid", schema, docs, "enum-listing-null", en.name))
 		}
 		// FLAT objects (scalar members, a required list, nothing else): the fragment of the generator-level theorem
 		// `flat_end_to_end` — for these the model generator's output is known in closed form for EVERY schema; the
